@@ -169,12 +169,26 @@ def rule_d(prog, rep):
         rep.undecided("R-C01-d", where, "construction branches", "expected 2 numpy.where stores and 2 row-scan appends, found %d and %d" % (len(wh), len(sc)))
         return
 
+    def _key0(ev):
+        key = ev["index"] if ev.kind == "store_sub" else ev["recv"].args[1]
+        k0 = key.args[0] if key.op == "tuple" else key
+        stripped = k0.args[1][0] if (k0.op == "call" and tm.callee_name(k0) == "builtins.int") else k0
+        return k0, stripped
+
     def skip_guard(ev):
-        """(value term, common term) of the `value == common: continue` guard dominating ev."""
+        """(value term, common term) of the `value == common: continue` guard dominating ev, whichever way round the
+        comparison is written: the value side is the one that is the key's value."""
+        k0, stripped = _key0(ev)
+        first = None
         for c, pol in flat_guards(ev.guards):
             if c.op == "cmp" and c.args[0] == "==" and not pol:
-                return c.args[1], c.args[2]
-        return None
+                a, b = c.args[1], c.args[2]
+                if a in (k0, stripped) or stripped in tm.alts(a):
+                    return a, b
+                if b in (k0, stripped) or stripped in tm.alts(b):
+                    return b, a
+                first = first or (a, b)
+        return first
 
     for ev in wh + sc:
         key = ev["index"] if ev.kind == "store_sub" else ev["recv"].args[1]
